@@ -249,7 +249,7 @@ def run(tier):
         types.append(rg.random_type(rnd, rnd.randint(2, 5)))
     # project types whose names end the way generated names end (TableSchema next to Table, QueryParams): a reference must reach the
     # schema of the type that was named
-    for nm in ("Table", "TableSchema", "Schema", "JsonSchema", "QueryParams", "QueryParamsSchema", "Größe", "Währung", "データ", "Ünïcode", "T", "K"):
+    for nm in ("Table", "TableSchema", "Schema", "JsonSchema", "QueryParams", "QueryParamsSchema", "Größe", "Währung", "データ", "Ünïcode", "T", "K", "Value", "JsonValue", "Item_V2", "_Private", "Any", "Map"):
         types.append(rg.N(nm))
         for (_, f) in rg.slots()[:9]:
             types.append(f(rg.N(nm)))
